@@ -23,6 +23,17 @@ def compile_program(src, extra_flows=None):
     return st
 
 
+def compile_second(src):
+    """The state of a SECOND runtime built from the same parsed flows (two LLMRails instances made from one
+    RailsConfig share the parsed elements): parse once, build and initialise twice, return the second."""
+    flows = parse_colang_file(filename="", content=src, include_source_mapping=True, version="2.x")["flows"]
+    st = None
+    for _ in range(2):
+        st = State(flow_states=[], flow_configs=create_flow_configs_from_flow_list(flows))
+        sm.initialize_state(st)
+    return st
+
+
 def start_main(st):
     return sm.run_to_completion(st, {"type": "StartFlow", "flow_id": "main"})
 
